@@ -18,13 +18,16 @@ pub fn check(tier: Tier) -> Check {
         Part::new("C04/prefix2", json!({}), 0, tier.pick(40, 300)),
         Part::new("C04/mutations", json!({"huge": tier == Tier::Thorough}), 0, tier.pick(40, 600)),
         Part::new("C04/faults", json!({}), 0, tier.pick(40, 300)),
-        Part::new("C04/trickle", json!({"size": tier.pick(65_536, 2_000_000)}), 0, 120),
+        // well-formed packets - expected or not - in richer session states
+        Part::new("C04/states", json!({"depth": tier.pick(2, 3), "pairs": false}), 0, tier.pick(40, 600)),
+        Part::new("C04/states", json!({"depth": tier.pick(0, 1), "pairs": true}), 0, tier.pick(40, 600)),
+        Part::new("C04/trickle", json!({"size": tier.pick(65_536, 2_100_000)}), 0, 120),
     ];
     Check {
         also_rel: true,
         property: "C04",
         level: "fault_enumeration",
-        rule: "phases {connect(), authorize(), run() idle, run() with one operation of every kind outstanding and a live stream} x inputs {(1) all byte strings up to the stated length over an 18-symbol boundary alphabet (0x00 0x01 0x02 0x03 0x7f 0x80 0xff and one fixed-header byte per server packet type), optionally followed by end-of-stream (strings whose length field announces more than 4 MiB, which the client allocates and zeroes, are delivered by the other input classes instead); all 65536 two-byte prefixes x three tails; (2) for a valid exemplar of every server packet type carrying every property: every truncation, every single-bit flip, every byte replaced by 0x00/0x01/0x7f/0x80/0xff, remaining length set to 0 / +-1 / maximum / over-long / non-minimal, every property spliced into every packet type, every reason byte 0..=255; (3) every packet type at every phase (well-formed, for known and unknown identifiers); (4) end-of-stream and read error at every byte offset in whole-packet and 1-byte chunking, write error at every write; (5) a long PUBLISH trickled in always-ready 1-byte reads in a child process}; both the overflow-checked and the wrapping-arithmetic build; non-trivial = the input made a call return an error".into(),
+        rule: "phases {connect(), authorize(), run() idle, run() with one operation of every kind outstanding and a live stream} x inputs {(1) all byte strings up to the stated length over an 18-symbol boundary alphabet (0x00 0x01 0x02 0x03 0x7f 0x80 0xff and one fixed-header byte per server packet type), optionally followed by end-of-stream (strings whose length field announces more than 4 MiB, which the client allocates and zeroes, are delivered by the other input classes instead); all 65536 two-byte prefixes x three tails; (2) for a valid exemplar of every server packet type carrying every property: every truncation, every single-bit flip, every byte replaced by 0x00/0x01/0x7f/0x80/0xff, remaining length set to 0 / +-1 / maximum / over-long / non-minimal, every property spliced into every packet type, every reason byte 0..=255; (3) every packet type at every phase (well-formed, for known and unknown identifiers); (4) end-of-stream and read error at every byte offset in whole-packet and 1-byte chunking, write error at every write; (5) from a session with three subscriptions (streams taken / response kept), a ping, QoS 1 and QoS 2 publishes in every phase outstanding and an unreleased inbound QoS 2 identifier: every bounded continuation by conformant events (streams and responses dropped, operations cancelled, acknowledgements, messages), followed by one or two packets from a menu of every acknowledgement type for every known and an unknown identifier, SUBACK / UNSUBACK for publish identifiers and vice versa, PUBLISH with every QoS and subscription-identifier lists naming live, dropped and unknown subscriptions in several orders, unsolicited PINGRESP / PUBREL / AUTH / CONNACK / DISCONNECT; (6) a long PUBLISH trickled in always-ready 1-byte reads in a child process}; both the overflow-checked and the wrapping-arithmetic build; non-trivial = the input made a call return an error".into(),
         assumptions: vec![
             "the documented assertion on brokers without subscription identifier support is exempt".into(),
             "which error is returned is unconstrained".into(),
@@ -364,9 +367,132 @@ fn vbi(v: u32) -> Vec<u8> {
     o
 }
 
+/// Richer session states: three subscriptions (two streams taken, one response kept), a ping, a QoS 1
+/// publish, a QoS 2 publish between its phases and one awaiting PUBREC outstanding, one inbound QoS 2
+/// identifier unreleased; then `depth` further conformant events (streams / responses dropped,
+/// operations cancelled, acknowledgements, messages) under the model's eyes; then - model off, oracle
+/// "no panic, no stall" - one or two well-formed packets from a menu of everything a server can send
+/// for known and unknown identifiers, whether or not the state calls for it.
+fn states(name: String, params: Value) -> Scenario {
+    use super::common::*;
+    use crate::model::St;
+    let depth = params["depth"].as_u64().unwrap_or(2) as usize;
+    let pairs = params["pairs"].as_bool().unwrap_or(false);
+    Box::new(move |chz, ex| {
+        let mut sys = Sys::new("C04", &name, chz);
+        sys.params = params.clone();
+        sys.m.check_client_acks = false;
+        let r = [None, Some(3u16)][chz.choose(2)];
+        sys.bring_up(r.map(receive_max).unwrap_or_default());
+        for i in 0..3 {
+            sys.apply(Ev::Start(OpSpec::Subscribe(SubscribeSpec::simple(&format!("s/{}", i)))));
+            if sys.dead {
+                return finish(sys, ex);
+            }
+            let ack = sys.ack_for(i, 0, "").unwrap();
+            sys.apply(Ev::Deliver(ack));
+            if i < 2 {
+                sys.apply(Ev::TakeStream(i));
+            }
+        }
+        sys.apply(Ev::Start(OpSpec::Ping));
+        sys.apply(Ev::Start(OpSpec::Publish(PublishSpec::simple(1, "t/a", b"one"))));
+        sys.apply(Ev::Start(OpSpec::Publish(PublishSpec::simple(2, "t/b", b"two"))));
+        if !sys.dead {
+            let rec = sys.ack_for(5, 0, "").unwrap();
+            sys.apply(Ev::Deliver(rec));
+        }
+        sys.apply(Ev::Start(OpSpec::Publish(PublishSpec::simple(2, "t/c", b"three"))));
+        if sys.dead {
+            return finish(sys, ex);
+        }
+        let ids: Vec<u32> = sys.m.subs.iter().map(|x| x.sub_id.unwrap()).collect();
+        sys.apply(Ev::Deliver(inbound(2, false, 77, &[ids[0]], "unreleased")));
+        for _ in 0..depth {
+            if sys.dead {
+                break;
+            }
+            let mut e = vec![];
+            for i in 0..sys.m.streams.len() {
+                if sys.m.streams[i].alive {
+                    e.push(Ev::DropStream(i));
+                }
+            }
+            if sys.m.subs[2].stream.is_none() && sys.m.subs[2].receiver_alive {
+                e.push(Ev::DropRsp(2));
+                e.push(Ev::TakeStream(2));
+            }
+            for i in 3..sys.m.ops.len() {
+                let o = &sys.m.ops[i];
+                // (a QoS 2 publish abandoned before its PUBREC is the recorded finding K-C15-1)
+                let q2_early = matches!(&o.spec, OpSpec::Publish(p) if p.qos() == 2) && !matches!(o.st, St::AwaitComp);
+                if o.alive && o.st != St::Done && !q2_early {
+                    e.push(Ev::Cancel(i));
+                }
+            }
+            e.extend(broker_acks(&sys, false, false));
+            let t = sys.transitions;
+            e.push(Ev::Deliver(inbound(0, false, 0, &[ids[1]], &format!("m{}", t))));
+            e.push(Ev::Deliver(inbound(1, false, 31, &ids, &format!("a{}", t))));
+            e.push(Ev::Deliver(pubrel_in(77)));
+            if sys.m.ops.len() < 9 {
+                e.push(Ev::Start(OpSpec::Unsubscribe(UnsubscribeSpec::simple("s/0"))));
+            }
+            let i = chz.choose(e.len());
+            sys.apply(e[i].clone());
+        }
+        if sys.dead {
+            return finish(sys, ex);
+        }
+        // ---- the menu
+        let mut pids: Vec<u16> = sys.m.ops.iter().filter_map(|o| o.pid).collect();
+        pids.sort();
+        pids.dedup();
+        pids.push(999);
+        let mut menu: Vec<SPacket> = vec![];
+        for &pid in &pids {
+            for ty in 4u8..=7 {
+                menu.push(SPacket::Ack { ty, pid, reason: 0, props: vec![], form: 2 });
+                menu.push(SPacket::Ack { ty, pid, reason: if ty >= 6 { 0x92 } else { 0x80 }, props: vec![], form: 3 });
+            }
+            menu.push(SPacket::Suback { pid, props: vec![], reasons: vec![0] });
+            menu.push(SPacket::Suback { pid, props: vec![], reasons: vec![0x80, 1] });
+            menu.push(SPacket::Unsuback { pid, props: vec![], reasons: vec![0] });
+        }
+        let rev: Vec<u32> = ids.iter().rev().copied().collect();
+        for subids in [vec![], vec![999u32], ids.clone(), rev, vec![ids[0], ids[2]], vec![ids[1], 999, ids[2], ids[1]]] {
+            for q in 0u8..=2 {
+                for pid in [77u16, 78] {
+                    if q == 0 && pid == 78 {
+                        continue;
+                    }
+                    menu.push(inbound(q, pid == 77, pid, &subids, "menu"));
+                }
+            }
+        }
+        menu.push(SPacket::Pingresp);
+        menu.push(pubrel_in(78));
+        menu.push(SPacket::Disconnect { reason: 0x8b, props: vec![], form: 2 });
+        menu.push(SPacket::Auth { reason: 0x18, props: vec![Prop::str(P_AUTH_METHOD, "m")], form: 2 });
+        menu.push(SPacket::Connack { session_present: false, reason: 0, props: vec![] });
+        lenient(&mut sys);
+        for _ in 0..(if pairs { 2 } else { 1 }) {
+            let p = menu[chz.choose(menu.len())].clone();
+            sys.events.push(format!("(model off) {}", p.brief()));
+            feed(&mut sys, &p.encode(), false);
+        }
+        feed(&mut sys, &SPacket::Pingresp.encode(), false);
+        fault(&mut sys, chz.choose(2));
+        finish(sys, ex)
+    })
+}
+
 pub fn scenario(name: &str, params: &Value) -> Scenario {
     let params = params.clone();
     let name = name.to_string();
+    if name == "C04/states" {
+        return states(name, params);
+    }
     match name.as_str() {
         "C04/bytes" => {
             let maxlen = params["len"].as_u64().unwrap_or(3) as usize;
